@@ -383,7 +383,9 @@ def _run(case, cfg, w):
             p = op[1]
             lst = outstanding.get(p, [])
             if lst and sc.alive(p):
-                ns, id_, tag = lst.pop(0)
+                # any of the outstanding ones, not necessarily the oldest
+                ns, id_, tag = lst.pop(w.choices.draw('app', len(lst),
+                                                      'which_ack'))
                 if sc.sid(p, ns) == cb_issued[tag]['sid']:
                     pay = ack_payload(tag)
                     sc.peers[p].send_pkt(sio.ACK, ns, id_, pay)
